@@ -23,7 +23,7 @@ func init() {
 		ThoroughConfigs: []string{"elpscheck"},
 	})
 	registerProp(PropSpec{ID: "C04",
-		Rules: []string{"ENTRY.begin-eval", "LIMIT.result-returned", "HEIGHT.push-check", "HEIGHT.check-chain", "HEIGHT.nesting-check", "POLL.eval-cycles", "POLL.int-loops", "TRO.mark-consumed",
+		Rules: []string{"ENTRY.begin-eval", "LIMIT.result-returned", "HEIGHT.push-check", "HEIGHT.check-chain", "HEIGHT.nesting-check", "POLL.eval-cycles", "POLL.int-loops", "TRO.mark-consumed", "SLEEP.cap", "SLEEP.context", "SLEEP.only-here",
 			"CENSUS.Runtime.steps", "CENSUS.Runtime.maxSteps", "CENSUS.Runtime.totalSteps", "CENSUS.Runtime.evalDepth", "CENSUS.Runtime.evalNesting", "CENSUS.CallStack.Frames",
 			"PAIR.nesting", "PAIR.frame"},
 		Explanation: "limit discipline as control-flow facts",
@@ -47,6 +47,12 @@ func init() {
 		Rules: []string{"ERR.same"},
 		Explanation: "error discipline of the evaluator kernel",
 		Assumptions: []string{"go/types + go/cfg model of the working tree"},
+		ThoroughConfigs: []string{"elpscheck"},
+	})
+	registerProp(PropSpec{ID: "C15",
+		Rules: []string{"SLEEP.cap", "SLEEP.context", "SLEEP.only-here"},
+		Explanation: "sleep bounded by cap, deadline and cancellation",
+		Assumptions: []string{"go/types + go/cfg model of the working tree", "Go time and context packages"},
 		ThoroughConfigs: []string{"elpscheck"},
 	})
 }
